@@ -88,12 +88,11 @@ structure LState where
       order them either way by rounding, so the exact model's choice need not be the implementation's -/
   risky : Bool := false
 
-/-- the body of `for u in &shuffled_nodes` -/
-def visit (lv : Level) (m res : Rat) (st : LState) (u : Nat) : Outcome LState := do
+/-- the body of `for u in &shuffled_nodes` after `node2com.get(u)` and `get_neighbor_weights` (+ `add_predecessor_weights`):
+    `cur` is the community of `u`, `w2c` the candidate map `weights2com` as the hash map hands it over -/
+def visitWith (lv : Level) (m res : Rat) (st : LState) (u cur : Nat) (w2c : List (Nat × Rat)) : Outcome LState := do
   let g := lv.g
   let dir := g.specs.directed
-  let cur ← Outcome.ofOption "compute_one_level: node2com.get(u).unwrap()" (alookup st.node2com u)
-  let w2c ← neighborWeights g u st.node2com
   -- subtract_degree_from_best_com
   let (inD, outD, dg) ← (if dir then do
       let i ← Outcome.ofOption "subtract_degree: in_degrees.get(u).unwrap()" (alookup st.di.inDeg u)
@@ -155,6 +154,12 @@ def visit (lv : Level) (m res : Rat) (st : LState) (u : Nat) : Outcome LState :=
     .ok { part := part, inner := inner, node2com := ainsert st.node2com u bestCom, di := di, improvement := true, moves := st.moves + 1,
           risky := st.risky || risky }
   else .ok { st with di := di, risky := st.risky || risky }
+
+/-- the body of `for u in &shuffled_nodes` -/
+def visit (lv : Level) (m res : Rat) (st : LState) (u : Nat) : Outcome LState := do
+  let cur ← Outcome.ofOption "compute_one_level: node2com.get(u).unwrap()" (alookup st.node2com u)
+  let w2c ← neighborWeights lv.g u st.node2com
+  visitWith lv m res st u cur w2c
 
 /-- `while nb_moves > 0 { for u in shuffled { .. } }`; `none` = fuel exhausted -/
 def sweeps (lv : Level) (m res : Rat) (order : List Nat) : Nat → LState → Outcome (Option LState)
